@@ -241,6 +241,18 @@ class _Stmts(ast.NodeTransformer):
                 sub = ast.Subscript(value=copy.deepcopy(node.value), slice=ast.Constant(value=i), ctx=ast.Load())
                 out.append(ast.copy_location(ast.Assign(targets=[t], value=sub), node))
             return out
+        # a starred display inside a display is its elements:  [], *([], [])  ->  [], [], []
+        if isinstance(node.value, (ast.Tuple, ast.List)) and any(
+                isinstance(e, ast.Starred) and isinstance(e.value, (ast.Tuple, ast.List)) for e in node.value.elts):
+            flat = []
+            for e in node.value.elts:
+                if isinstance(e, ast.Starred) and isinstance(e.value, (ast.Tuple, ast.List)):
+                    flat.extend(e.value.elts)
+                else:
+                    flat.append(e)
+            node.value.elts = flat
+            self.changed = True
+            return self.visit_Assign(node)
         # N2
         if len(node.targets) == 1 and isinstance(node.targets[0], (ast.Tuple, ast.List)) and \
                 isinstance(node.value, (ast.Tuple, ast.List)) and \
